@@ -34,8 +34,21 @@
 //!   zone at the coordinates, `K:<hol>;<loc>` the equivalent context built here, `D:<enc>` / `ND:<enc>` Display of
 //!   the expression / of its normal form, `DQ:<enc>` that string as a double quoted Python literal (the binding's `python_quoted`, mirrored here), `in0=` / `in1=` the inputs as chrono sees them (`N:<day>:<ns>`,
 //!   `A:<zone>:<utc day>:<utc ns>`, `conv`, `now:<day>:<ns>`), `Tn:<zone>:<utc>:<naive>` naive_local,
-//!   `Td:<zone>:<naive>:<utc|panic>` Localize::datetime, then `F <from> <to> none|some <iv>` (first item of
-//!   iter_range_naive) or `L <from> <to> <all|cut> <n> <iv>*` (its first items), `<iv>` = `<start> <end> <kind> <k> <comment>*`.
+//!   `Td:<zone>:<naive>:<utc|panic>` Localize::datetime, then ONE stream fact, the items of
+//!   `iter_range_naive(from, to)` as far as the call pulls them (`<iv>` = `<start> <end> <kind> <k> <comment>*`):
+//!     `F <from> <to> <all|cut|panic:site> <n> <iv>*`   py.state / py.next / py.normalize: the lazily pulled prefix.
+//!         state: the first item.  next_change (generic `iter_range` of /repo dfe1ade: filter
+//!         `naive(datetime(start)) < end`, merge same-kind neighbours with `curr.end <= next.start`, map): every
+//!         item up to and including the first KEPT one that is not merged into the head (`next_if` peeks it).
+//!         `all` = the stream ended there, `cut` = it was not pulled further, `panic:…` = the next pull panicked.
+//!     `L <from> <to> <all|cut|panic:site> <n> <iv>*`   py.intervals: the items that make up the first `cap`
+//!         LOCALIZED ranges (dropped and merged ones included); `cut` = a further localized range exists (its
+//!         first kept item is NOT listed), `all` = the stream ended.
+//!   For a context with a zone every listed item comes with `Td` of its start and end (the filter needs
+//!   `Td` + `Tn` of the start, the mapped bounds are among them).  The stream is obtained through the public
+//!   `iter_range` of an identity locale (`NoLocation` / `Wall`): its filter keeps every non-empty range and its
+//!   merge is idle on a stream without same-kind neighbours, which is what `TimeDomainIterator` produces
+//!   (`consume_until_next_kind`) — `iter_range_naive` itself is private.
 use crate::ast;
 use crate::ev;
 use crate::gen_expr;
@@ -481,15 +494,91 @@ fn open_end(b: &Built, f: &mut Facts) -> NaiveDateTime {
     }
 }
 
+fn show_stream(tag: &str, from: NaiveDateTime, to: NaiveDateTime, items: &[DateTimeRange<NaiveDateTime>], end: &str) -> String {
+    let mut t = format!("{tag} {} {} {end} {}", ast::instant(from), ast::instant(to), items.len());
+    for iv in items {
+        t.push(' ');
+        t.push_str(&show_iv(iv));
+    }
+    t
+}
+
+/// the `filter` closure of the generic `iter_range` for this context (`locale.naive(locale.datetime(start)) < end`),
+/// recording the conversions it asks for; `None` = `datetime` panicked.  `extra` = a zone the binding attaches
+/// afterwards (naive context, aware input): only its `Td` facts are recorded.
+fn keeps(b: &Built, extra: Option<Tz>, iv: &DateTimeRange<NaiveDateTime>, f: &mut Facts) -> Option<bool> {
+    match b.zone() {
+        Some(z) => {
+            let d = f.td(z, iv.range.start)?;
+            f.td(z, iv.range.end);
+            Some(f.tn(z, d.naive_utc()) < iv.range.end)
+        }
+        None => {
+            if let Some(z) = extra {
+                f.td(z, iv.range.start);
+                f.td(z, iv.range.end);
+            }
+            Some(iv.range.start < iv.range.end)
+        }
+    }
+}
+
+/// Pull `iter_range_naive(from, to)` exactly as far as the first `want` items of the generic `iter_range` need
+/// it (filter, merge with `next_if`'s peek).  Returns the pulled items, how the pulling ended (`all` / `cut` /
+/// `panic:…`) and whether a `want + 1`-th localized range exists.  With `keep_terminator` the peeked item that
+/// ends the last merge is part of the result (what `next_change` pulls), otherwise it is left out.
+fn pull_stream(b: &Built, extra: Option<Tz>, from: NaiveDateTime, to: NaiveDateTime, want: usize, keep_terminator: bool, f: &mut Facts) -> (Vec<DateTimeRange<NaiveDateTime>>, String) {
+    let mut items: Vec<DateTimeRange<NaiveDateTime>> = vec![];
+    let mut end = "all".to_string();
+    let r = catch(|| {
+        let mut it = b.naive_iter(from, to);
+        // the range in hand (kind, end) and the number of localized ranges started so far
+        let mut curr: Option<(RuleKind, NaiveDateTime)> = None;
+        let mut started = 0usize;
+        loop {
+            let Some(iv) = it.next() else { break };
+            let Some(k) = keeps(b, extra, &iv, f) else {
+                // `datetime` panicked inside the filter: the model meets the same `Td` fact
+                items.push(iv);
+                end = "cut".into();
+                break;
+            };
+            if k {
+                match curr {
+                    Some((kind, stop)) if kind == iv.kind && stop <= iv.range.start => curr = Some((kind, iv.range.end)),
+                    _ => {
+                        if started == want {
+                            // first kept item of the range after the last wanted one
+                            if keep_terminator {
+                                items.push(iv);
+                            }
+                            end = "cut".into();
+                            break;
+                        }
+                        started += 1;
+                        curr = Some((iv.kind, iv.range.end));
+                    }
+                }
+            }
+            items.push(iv);
+        }
+    });
+    if let Err(p) = r {
+        end = p;
+    }
+    (items, end)
+}
+
 fn op_state(b: &Built, i: &In, f: &mut Facts) -> String {
     let Some(w) = wall_of(b, i, f) else { return "E call TypeError".into() };
     if w < DATE_END {
         let to = w + Duration::minutes(1);
+        // `state` looks at the first item of the wall-clock stream only (no filter, no `datetime`)
         let first = catch(|| b.naive_iter(w, to).next());
         f.tail = Some(match &first {
-            Ok(None) => format!("F {} {} none", ast::instant(w), ast::instant(to)),
-            Ok(Some(iv)) => format!("F {} {} some {}", ast::instant(w), ast::instant(to), show_iv(iv)),
-            Err(p) => format!("F {} {} {}", ast::instant(w), ast::instant(to), p),
+            Ok(None) => show_stream("F", w, to, &[], "all"),
+            Ok(Some(iv)) => show_stream("F", w, to, std::slice::from_ref(iv), "cut"),
+            Err(p) => show_stream("F", w, to, &[], p),
         });
     }
     // the core's own typed API
@@ -509,25 +598,9 @@ fn op_next(b: &Built, i: &In, f: &mut Facts) -> String {
     // facts along the generic code's path
     let to = open_end(b, f);
     let from = min_end(w);
-    let first = catch(|| b.naive_iter(from, to).next());
-    f.tail = Some(match &first {
-        Ok(None) => format!("F {} {} none", ast::instant(from), ast::instant(to)),
-        Ok(Some(iv)) => format!("F {} {} some {}", ast::instant(from), ast::instant(to), show_iv(iv)),
-        Err(p) => format!("F {} {} {}", ast::instant(from), ast::instant(to), p),
-    });
-    if let Ok(Some(iv)) = &first {
-        match b.zone() {
-            Some(z) => {
-                f.td(z, iv.range.start);
-                f.td(z, iv.range.end);
-            }
-            None => {
-                if let Some(z) = i.zone() {
-                    f.td(z, iv.range.end);
-                }
-            }
-        }
-    }
+    // what `iter_from(t).next()` pulls: up to the first kept range that is not merged into the head
+    let (items, end) = pull_stream(b, i.zone(), from, to, 1, true, f);
+    f.tail = Some(show_stream("F", from, to, &items, &end));
     // the core's own typed API
     let r: Result<Result<Option<Out>, String>, String> = catch(|| match (&b.loc, i) {
         (None, _) => match b.nl().next_change(w) {
@@ -559,25 +632,9 @@ fn op_intervals(b: &Built, start: &In, end: Option<&In>, cap: usize, f: &mut Fac
         Some(w) => min_end(w),
         None => open_end(b, f),
     };
-    // facts: the first items of the naive iteration
-    let items = catch(|| b.naive_iter(from, to).take(cap + 1).collect::<Vec<_>>());
-    match &items {
-        Ok(v) => {
-            let cut = v.len() > cap;
-            let v = &v[..v.len().min(cap)];
-            let mut t = format!("L {} {} {} {}", ast::instant(from), ast::instant(to), if cut { "cut" } else { "all" }, v.len());
-            for iv in v {
-                t.push(' ');
-                t.push_str(&show_iv(iv));
-                if let Some(z) = b.zone().or(prefer) {
-                    f.td(z, iv.range.start);
-                    f.td(z, iv.range.end);
-                }
-            }
-            f.tail = Some(t);
-        }
-        Err(p) => f.tail = Some(format!("L {} {} {}", ast::instant(from), ast::instant(to), p)),
-    }
+    // facts: the items of the naive iteration that make up the first `cap` localized ranges
+    let (items, how) = pull_stream(b, prefer, from, to, cap, false, f);
+    f.tail = Some(show_stream("L", from, to, &items, &how));
     // the core's own typed API; an end reading DATE_END is reported as None
     type Item = (Out, Option<Out>, RuleKind, Vec<String>);
     let comments = |r: &[std::sync::Arc<str>]| r.iter().map(|c| c.to_string()).collect::<Vec<_>>();
@@ -1062,6 +1119,16 @@ pub fn gen(tier: &str, rng: &mut Rng, emit: &mut dyn FnMut(String)) {
         // a naive input inside the gap of the context zone is evaluated as it is
         format!("py.state {} Z:Europe/Paris - - d d N:{}", enc("02:00-03:00"), inst(ev::ymd(2024, 3, 31), ns_of(2, 30, 0, 0))),
         format!("py.next {} Z:Europe/Paris - - d d N:{}", enc("02:00-03:00"), inst(ev::ymd(2024, 3, 31), ns_of(2, 30, 0, 0))),
+        // a span the clock skips is no interval and no change (D16, /repo dfe1ade): dropped, its neighbours merged —
+        // also when the merged range is the last one asked for (cap 1) and for aware bounds
+        format!("py.next {} Z:Europe/Paris - - d d N:{}", enc("02:30-02:45"), inst(ev::ymd(2024, 3, 31), ns_of(1, 0, 0, 0))),
+        format!("py.intervals {} Z:Europe/Paris - - d d N:{} N:{} 5", enc("02:30-02:45"), inst(ev::ymd(2024, 3, 31), ns_of(1, 0, 0, 0)), inst(ev::ymd(2024, 3, 31), ns_of(4, 0, 0, 0))),
+        format!("py.intervals {} Z:Europe/Paris - - d d N:{} - 1", enc("02:30-02:45"), inst(ev::ymd(2024, 3, 31), ns_of(1, 0, 0, 0))),
+        format!("py.intervals {} Z:Europe/Paris - - d d N:{} - 2", enc("02:30-02:45 \"a\"; 02:45-03:00 unknown \"b\""), inst(ev::ymd(2024, 3, 30), ns_of(1, 0, 0, 0))),
+        format!("py.intervals {} Z:Europe/Paris - - d d A:UTC:0:{} A:Asia/Tokyo:0:{} 5", enc("02:00-03:00"), inst(ev::ymd(2024, 3, 30), ns_of(23, 0, 0, 0)), inst(ev::ymd(2024, 4, 1), ns_of(12, 0, 0, 0))),
+        format!("py.intervals {} Z:Europe/Paris - - d d N:{} N:{} 5", enc("02:00-03:00"), inst(ev::ymd(2024, 3, 31), ns_of(2, 30, 0, 0)), inst(ev::ymd(2024, 3, 31), ns_of(2, 50, 0, 0))),
+        // … while without a zone (and for a zone attached afterwards) the wall clock is all there is
+        format!("py.intervals {} - - - d d A:Europe/Paris:0:{} N:{} 5", enc("02:30-02:45"), inst(ev::ymd(2024, 3, 31), ns_of(1, 0, 0, 0)), inst(ev::ymd(2024, 3, 31), ns_of(4, 0, 0, 0))),
         // the ends of Python's range
         format!("py.state {} - - - d d N:{}", enc("24/7"), inst(3_652_059, ns_of(23, 59, 59, 999_999))),
         format!("py.next {} - - - d d N:{}", enc("24/7"), inst(3_652_059, ns_of(23, 59, 59, 999_999))),
@@ -1228,7 +1295,14 @@ pub fn gen(tier: &str, rng: &mut Rng, emit: &mut dyn FnMut(String)) {
             let after = wall_of_secs(hi + 1800);
             let m = mid.1 / 60_000_000_000;
             let hm = |x: i64| format!("{:02}:{:02}", x.rem_euclid(1440) / 60, x.rem_euclid(1440) % 60);
-            let exprs = [format!("{}-{}", hm(m - 45), hm(m + 5)), "Mo-Su 00:00-02:30 unknown; Mo-Su 02:30-24:00 open \"x\"".to_string(), "24/7".to_string()];
+            // the second span lies entirely inside a gap (of ≥ 30 min): the localized stream drops it and merges
+            // its neighbours (/repo dfe1ade)
+            let exprs = [
+                format!("{}-{}", hm(m - 45), hm(m + 5)),
+                format!("{}-{} \"in\"", hm(m - 10), hm(m + 5)),
+                "Mo-Su 00:00-02:30 unknown; Mo-Su 02:30-24:00 open \"x\"".to_string(),
+                "24/7".to_string(),
+            ];
             for e in &exprs {
                 for (ctz, at) in [(format!("Z:{z}"), "d"), ("-".to_string(), "d"), ("Z:Asia/Tokyo".to_string(), "d")] {
                     let c = format!("{} {ctz} - - d {at}", enc(e));
